@@ -7,6 +7,9 @@
 #include <cmath>
 #include <cstring>
 #include <cstdio>
+#include <cstdlib>
+#include <cstdint>
+#include <new>
 #include <algorithm>
 #include <functional>
 #include <map>
@@ -57,11 +60,54 @@ static std::vector<float> hypers(const Optimizer &o) {
   return {};
 }
 
+// ---- the same iteration order in every world of a case
+// std::unordered_set<Parameter *> (Optimizer::params_) iterates in an order that depends on the
+// addresses modulo the bucket count, and the clipping norm is summed in that order: two worlds
+// with other addresses give results that differ by rounding (and RMSProp amplifies that without
+// bound), which no tolerance separates from a real resume defect.  So the i-th Parameter of every
+// world lives at the same offset of a slot, and the distance between slots is a multiple of every
+// bucket count the set goes through while it grows to MAXP elements: address mod bucket_count, hence
+// the iteration order after the same insertions, is the same in all worlds.  The orders are still
+// printed (ordU= ordR= ordF= ordE=); the engine compares bitwise whenever they agree.
+struct Slots {
+  static const size_t MAXP = 8, NSLOT = 8;
+  size_t psize, stride; char *base; bool used[NSLOT];
+  Slots() : used() {
+    psize = (sizeof(Parameter) + 63) / 64 * 64;
+    auto gcd = [](size_t a, size_t b) { while (b) { size_t t = a % b; a = b; b = t; } return a; };
+    size_t l = 64;
+    static char probe_obj[MAXP];
+    std::unordered_set<char *> probe;
+    for (size_t i = 0; i < MAXP; ++i) { probe.insert(probe_obj + i); const size_t b = probe.bucket_count(); l = l / gcd(l, b) * b; }
+    stride = (psize * MAXP + l - 1) / l * l;
+    // the base itself is a multiple of l: the order does not depend on the process image either
+    char *raw = static_cast<char *>(std::malloc(stride * NSLOT + l));
+    base = raw + (l - reinterpret_cast<std::uintptr_t>(raw) % l) % l;
+  }
+  int take() { for (size_t i = 0; i < NSLOT; ++i) if (!used[i]) { used[i] = true; return static_cast<int>(i); } return -1; }
+  void give(int i) { if (i >= 0) used[i] = false; }
+  void *at(int slot, size_t i) { return (slot >= 0 && i < MAXP) ? base + slot * stride + i * psize : nullptr; }
+};
+static Slots &slots() { static Slots s; return s; }
+struct PDel { bool heap; void operator()(Parameter *p) const { if (heap) delete p; else p->~Parameter(); } };
+typedef std::unique_ptr<Parameter, PDel> PPtr;
+
 struct World {
   std::string kind;
   Device *dev;
   std::unique_ptr<Optimizer> opt;
-  std::vector<std::unique_ptr<Parameter>> params;
+  std::vector<PPtr> params;
+  int slot;
+  World() : dev(nullptr), slot(slots().take()) {}
+  ~World() { params.clear(); slots().give(slot); }
+  World(const World &) = delete;
+  World &operator=(const World &) = delete;
+  // the next Parameter of this world, at its pinned address (heap beyond MAXP parameters / NSLOT worlds)
+  template <typename... A> void new_param(A &&... a) {
+    void *where = slots().at(slot, params.size());
+    if (where) params.emplace_back(PPtr(new (where) Parameter(std::forward<A>(a)...), PDel{false}));
+    else params.emplace_back(PPtr(new Parameter(std::forward<A>(a)...), PDel{true}));
+  }
   std::vector<int> reg;   // mirror of the registered set, in order of first successful add
   // same insertions as Optimizer::params_, hence the same iteration order
   std::unordered_set<Parameter *> mirror;
@@ -172,8 +218,8 @@ static void resume(World &f, const World &src, const std::string &order, const s
   f.opt = default_opt(src.kind);
   Model m;
   for (size_t i = 0; i < src.params.size(); ++i) {
-    if (order == "0") f.params.emplace_back(new Parameter());
-    else f.params.emplace_back(new Parameter(src.params[i]->shape(), std::vector<float>(src.params[i]->shape().size(), 0.0f), *f.dev));
+    if (order == "0") f.new_param();
+    else f.new_param(src.params[i]->shape(), std::vector<float>(src.params[i]->shape().size(), 0.0f), *f.dev);
     m.add(pname(i), *f.params.back());
   }
   if (order == "0") {
@@ -202,8 +248,8 @@ static void apply(World &w, const std::vector<std::string> &t, std::vector<std::
   if (f == "new") {
     w.opt = make_opt(t.at(1), vec(t.at(2)));
   } else if (f == "param") {
-    if (t.at(1) == "-") w.params.emplace_back(new Parameter());
-    else { auto v = vec(t[1]); w.params.emplace_back(new Parameter(shape_for(v.size()), v, *w.dev)); }
+    if (t.at(1) == "-") w.new_param();
+    else { auto v = vec(t[1]); w.new_param(shape_for(v.size()), v, *w.dev); }
   } else if (f == "grad") {
     guarded("grad", [&] { w.params.at(std::stoi(t.at(1)))->gradient().reset_by_vector(vec(t.at(2))); });
   } else if (f == "stat") {
@@ -271,12 +317,25 @@ static void apply(World &w, const std::vector<std::string> &t, std::vector<std::
     const bool graph = f == "rung";
     auto train = [&](World &x, int t0, int m) { if (graph) train_graph(x, t0, m); else train_simple(x, t0, m); };
     if (!out) { train(w, 0, k + n); return; }   // replay of an earlier run: only its uninterrupted part
-    std::string us = "err", rs = "err", ords = "ordU=" + w.order();
+    std::string us = "err", rs = "err", ues = "err", ords = "ordU=" + w.order(), orde;
+    // Both sides of a resume comparison live on the SAME backend.  mode 2 = the whole comparison on
+    // devices::Eigen: a third world `ue` replays the history and runs k+n uninterrupted steps there
+    // (printed after ` UE `), and the interrupted world is built, trained, saved and resumed on
+    // Eigen as well.  `w` itself always stays on Naive (the model follows it, later operations
+    // continue from it).  Naive against Eigen is backend equivalence, C08's subject, not this one.
+    const bool eig = mode == "2";
+    Device *cdev = eig ? static_cast<Device *>(g_dev2) : w.dev;
     // the interrupted run starts from an identical second world (the history replayed)
-    World r0; r0.kind = w.kind; r0.dev = w.dev;
+    World r0; r0.kind = w.kind; r0.dev = cdev;
     try {
       build_prefix(r0, prefix);
       ords += " ordR=" + r0.order();
+      if (eig) {
+        World ue; ue.kind = w.kind; ue.dev = cdev;
+        build_prefix(ue, prefix);
+        orde = " ordE=" + ue.order();
+        try { train(ue, 0, k + n); ues = dump(ue, false); } catch (Error &) {}
+      }
       try { train(w, 0, k + n); us = dump(w, false); } catch (Error &) {}
       try {
         train(r0, 0, k);
@@ -288,15 +347,15 @@ static void apply(World &w, const std::vector<std::string> &t, std::vector<std::
         m.save(mf, true);
         r0.opt->save(of);
         World fr;
-        fr.dev = mode == "1" ? static_cast<Device *>(g_dev1) : mode == "2" ? static_cast<Device *>(g_dev2) : w.dev;
+        fr.dev = mode == "1" ? static_cast<Device *>(g_dev1) : cdev;
         resume(fr, r0, order, mf, of);
         ::unlink(mf); ::unlink(of);
-        ords += " ordF=" + fr.order();
+        ords += " ordF=" + fr.order() + orde;
         train(fr, k, n);
         rs = dump(fr, false);
       } catch (Error &) {}
     } catch (HaltCase &) {}
-    emit(std::string(graph ? "rung " : "run ") + ords + " U " + us + " R " + rs);
+    emit(std::string(graph ? "rung " : "run ") + ords + " U " + us + " R " + rs + (eig ? " UE " + ues : std::string()));
   } else emit("badop");
 }
 
